@@ -148,7 +148,7 @@ class C20(Prop):
         gmeta = {}
         for bed in (False, True):
             r = rng.fork(f"genome{int(bed)}")
-            glen = 120000000
+            glen = 2147483000                 # just below 2^31 (the Python API's coordinates are signed 32-bit numbers)
             greqs = [(0, 3 << 24, 512), (0, 3 << 24, 3072), (5, 5 + (1 << 25), 1024), (1000, 1000 + (5 << 24), 640)]
             ents = [(10, 20, 1.0)]
             for (s_, e_, nb) in greqs:
@@ -157,6 +157,8 @@ class C20(Prop):
                     b_ = s_ + j * w_
                     dl = r.choice([1, 2, 3, 4])
                     ents.append((b_ - dl, b_ - dl + r.choice([1, 1, 2, 7]), float(r.choice([2, 3, 5, 7]))))
+            # a record that starts near the chromosome start and ends just below 2^31 (bigBed: one long entry; bigWig: one long value)
+            ents.append((500, 2147482990, 2.0)) if bed else None
             ents.sort()
             if not bed:
                 flat = []
@@ -178,6 +180,8 @@ class C20(Prop):
                 continue
             reqs = [dict(chrom=CHROM, start=s_, end=e_, bins=nb, summary=["mean", "min", "max"][(i + int(bed)) % 3], exact=True, missing=-1, oob=-5)
                     for i, (s_, e_, nb) in enumerate(greqs)]
+            # per-base requests that start BELOW 0 over the start of that long record (shifted coordinates near ±2^31)
+            reqs += [dict(chrom=CHROM, start=s_, end=e_, bins=None, missing=-1, oob=-5) for (s_, e_) in ((-8, 1000), (-1000, 1000), (-5, 600), (0, 700), (-3000, 501))]
             jobs.append({"file": outp, "requests": reqs})
             meta.append((tag, bed, glen, []))            # judged by genome_judge (interval arithmetic), not base by base
             gmeta[tag] = ents
@@ -249,6 +253,22 @@ class C20(Prop):
         if "exc" in rr:
             return "the call raised: " + rr["exc"]
         got = self.floats(rr)
+        if rq["bins"] is None:
+            s, e = rq["start"], rq["end"]
+            glen = 2147483000
+            if len(got) != e - s:
+                return f"array has {len(got)} cells, expected {e - s}"
+            near = [(a, b, v) for (a, b, v) in ents if b > s and a < e]
+            for i, g in enumerate(got):
+                p_ = s + i
+                if p_ < 0 or p_ >= glen:
+                    want = float(rq["oob"])
+                else:
+                    cov = [v for (a, b, v) in near if a <= p_ < b]
+                    want = (float(len(cov)) if bed else cov[0]) if cov else float(rq["missing"])
+                if g != want:
+                    return f"per-base: cell {i} (base {p_}) is {g}, expected {want}"
+            return None
         s, e, n = rq["start"], rq["end"], rq["bins"]
         w = (e - s) // n
         if len(got) != n:
